@@ -376,13 +376,17 @@ func (c *ctx) engineCase(a, b Schema, desc string, o engineOpts) {
 	if setupErr != nil {
 		add("S0 err")
 		c.w.Count("engine.setup-error")
+		if os.Getenv("VERIF_WHY") != "" {
+			fmt.Fprintf(os.Stderr, "WHY setup %s: %v\n", id, setupErr)
+		}
 		if o.viaAtlas && validSQLite(a) == nil {
-			c.w.Violation(id, "create-failed", fmt.Sprintf("creating a valid schema from nothing fails: %v [%s]", setupErr, desc))
+			c.w.Violation(id, "create-failed", "input-class="+classify(Schema{}, a)+"; "+fmt.Sprintf("creating a valid schema from nothing fails: %v [%s]", setupErr, desc))
 		}
 		finish()
 		return
 	}
 	add("S0 ok")
+	ic := "input-class=" + classify(a, b) + "; "
 	for _, r := range o.rows {
 		if err := l.exec(insertSQL(r, *a.table(r.table))); err != nil {
 			panic(fmt.Sprintf("harness: insert failed: %v (%s)", err, insertSQL(r, *a.table(r.table))))
@@ -461,18 +465,21 @@ func (c *ctx) engineCase(a, b Schema, desc string, o engineOpts) {
 	switch {
 	case aerr != nil:
 		c.w.Count("engine.apply-error")
+		if os.Getenv("VERIF_WHY") != "" {
+			fmt.Fprintf(os.Stderr, "WHY apply %s: %v | valid=%v\n", id, aerr, validSQLite(b))
+		}
 		if len(o.rows) == 0 && validSQLite(b) == nil {
-			c.w.Violation(id, "apply-failed", fmt.Sprintf("applying the plan to an empty database fails although the desired schema is valid SQLite: %v ; diff=%s [%s]", aerr, showSchemaChanges(cs, nil), desc))
+			c.w.Violation(id, "apply-failed", ic+fmt.Sprintf("applying the plan to an empty database fails although the desired schema is valid SQLite: %v ; diff=%s [%s]", aerr, showSchemaChanges(cs, nil), desc))
 		}
 	case derr2 != nil:
-		c.w.Violation(id, "diff-error", fmt.Sprintf("SchemaDiff after apply fails: %v [%s]", derr2, desc))
+		c.w.Violation(id, "diff-error", ic+fmt.Sprintf("SchemaDiff after apply fails: %v [%s]", derr2, desc))
 	case len(cs2) != 0:
-		c.w.Violation(id, "not-converged", fmt.Sprintf("after a successful apply the difference to the desired schema is %s ; first diff=%s [%s]", showSchemaChanges(cs2, nil), showSchemaChanges(cs, nil), desc))
+		c.w.Violation(id, "not-converged", ic+fmt.Sprintf("after a successful apply the difference to the desired schema is %s ; first diff=%s [%s]", showSchemaChanges(cs2, nil), showSchemaChanges(cs, nil), desc))
 	default:
 		c.w.Count("engine.converged")
 		p2, perr := sqlite.DefaultPlan.PlanChanges(bg, "second", cs2)
 		if perr != nil || len(p2.Changes) != 0 {
-			c.w.Violation(id, "second-plan", fmt.Sprintf("second plan not empty [%s]", desc))
+			c.w.Violation(id, "second-plan", ic+fmt.Sprintf("second plan not empty [%s]", desc))
 		}
 	}
 	finish()
@@ -499,5 +506,41 @@ func runEngine(c *ctx) {
 			}
 		}
 		c.engineCase(a, b, d, o)
+	}
+}
+
+// ------------------------------------------------------------------ oracle stage (no model)
+
+func runOracle(c *ctx) {
+	c.w.Rule = "a case is non-trivial when the real differ reports a non-empty change list between the inspected current database and the desired schema; distinct by that list"
+	n := 3000
+	if c.thorough {
+		n = 40000
+	}
+	for i := 0; i < n; i++ {
+		a, b, d := c.g.pair()
+		o := engineOpts{file: c.r.Chance(1, 3), fk: c.r.Bool(), viaAtlas: c.r.Chance(1, 2)}
+		if !o.viaAtlas && c.r.Chance(1, 4) && c.g.addUniques(&a, &b) {
+			d += "+uniques"
+		}
+		c.engineCase(a, b, d, o)
+	}
+	// one stream per open known finding: the witnesses must still fail (they print KNOWN-FINDING), and
+	// any other violation on them still raises
+	kg := &G{r: c.r, allowKnown: false}
+	per := 6
+	if c.thorough {
+		per = 60
+	}
+	for _, class := range knownClasses {
+		for i := 0; i < per; i++ {
+			a, b, ok := kg.witness(class)
+			if !ok {
+				c.w.Count("known.no-witness=" + class)
+				continue
+			}
+			c.w.Count("known.witness=" + class)
+			c.engineCase(a, b, "known:"+class, engineOpts{file: i%2 == 0, fk: i%3 == 0, viaAtlas: class != "drop-inline-unique" && i%2 == 1})
+		}
 	}
 }
